@@ -1126,6 +1126,11 @@ class Interp:
 def exc_matches(exp, obs, Hh=None):
     """Observed exception vs expected one. Returns None or a description of the difference."""
     if isinstance(exp, ExpBoom):
+        if isinstance(obs, RuntimeError) and isinstance(obs.__cause__, StopIteration) and hasattr(obs.__cause__, "cbid"):
+            # PEP 479: a StopIteration that crosses a generator or coroutine frame on its way out (the library's coroutine wrappers,
+            # a generator expression around the guards) arrives as RuntimeError with the original as its cause - the failure
+            # did reach the caller
+            obs = obs.__cause__
         if (getattr(obs, "cbid", None), getattr(obs, "occ", None)) != (exp.cbid, exp.occ):
             return f"expected the failure injected at {exp.cbid}#{exp.occ}, got {obs!r}"
         if Hh is not None and not any(obs is r for r in Hh.raised):
